@@ -246,4 +246,54 @@ Section AEAD.
     | OpenOK p => (OpenOK p, set_open_counters a (invalidPacketCount a) (Z.max (highestRcvdPN a) pn))
     | _ => (r, a)
     end.
+
+  (** ** One endpoint against an arbitrary environment: operations, events, traces. *)
+  Inductive uop :=
+  | UKeyPhase                                         (* KeyPhase(), as the packer calls it before sealing *)
+  | USeal (pn : Z) (ad : adata) (p : ptext)
+  | UOpen (now pto3 pn kp : Z) (ad : adata) (c : ctext)
+  | UAck (pn : Z)                                     (* SetLargestAcked(pn) *)
+  | UConfirm.                                         (* SetHandshakeConfirmed() *)
+
+  Inductive uev :=
+  | EvKeyPhase (bit : Z)
+  | EvSeal (c : ctext)
+  | EvOpen (r : ores ptext)
+  | EvAck (err : bool)                                (* true = KEY_UPDATE_ERROR *)
+  | EvConfirm.
+
+  Definition ua_step (cfg : kcfg) (a : ua) (op : uop) : uev * ua :=
+    match op with
+    | UKeyPhase => let '(b, a') := ua_keyphase cfg a in (EvKeyPhase b, a')
+    | USeal pn ad p => let '(c, a') := ua_seal a pn ad p in (EvSeal c, a')
+    | UOpen now pto3 pn kp ad c => let '(r, a') := ua_open a now pto3 pn kp ad c in (EvOpen r, a')
+    | UAck pn => let '(e, a') := ua_set_largest_acked a pn in (EvAck e, a')
+    | UConfirm => (EvConfirm, ua_confirm a)
+    end.
+
+  (** A trace entry: key phase before the call, the call, what it returned, key phase after. *)
+  Definition entry : Type := (Z * uop * uev * Z)%type.
+
+  Fixpoint ua_run (cfg : kcfg) (a : ua) (ops : list uop) : ua :=
+    match ops with [] => a | op :: r => ua_run cfg (snd (ua_step cfg a op)) r end.
+
+  Fixpoint ua_trace (cfg : kcfg) (a : ua) (ops : list uop) : list entry :=
+    match ops with
+    | [] => []
+    | op :: r => let '(ev, a') := ua_step cfg a op in (keyPhase a, op, ev, keyPhase a') :: ua_trace cfg a' r
+    end.
+
+  Definition seal_pns (ops : list uop) : list Z :=
+    flat_map (fun op => match op with USeal pn _ _ => [pn] | _ => [] end) ops.
 End AEAD.
+
+Arguments UKeyPhase {ctext ptext adata}.
+Arguments USeal {ctext ptext adata} pn ad p.
+Arguments UOpen {ctext ptext adata} now pto3 pn kp ad c.
+Arguments UAck {ctext ptext adata} pn.
+Arguments UConfirm {ctext ptext adata}.
+Arguments EvKeyPhase {ctext ptext} bit.
+Arguments EvSeal {ctext ptext} c.
+Arguments EvOpen {ctext ptext} r.
+Arguments EvAck {ctext ptext} err.
+Arguments EvConfirm {ctext ptext}.
